@@ -381,9 +381,20 @@ func runReplay(id, path string) int {
 		return 2
 	}
 	abs, _ := filepath.Abs(path)
-	cmd := exec.Command(b.bin, "-test.run", "^TestVerif$", "-test.timeout", "0", "-verif.prop", id, "-verif.mode", "replay", "-verif.replay", abs,
-		"-verif.sites", b.sites, "-verif.trace", "-verif.known", filepath.Join(verifDir, "known_findings.json"))
-	cmd.Env = append(os.Environ(), "GOMAXPROCS=1")
+	args := []string{"-test.run", "^TestVerif$", "-test.timeout", "0", "-verif.prop", id, "-verif.mode", "replay", "-verif.replay", abs,
+		"-verif.sites", b.sites, "-verif.trace", "-verif.known", filepath.Join(verifDir, "known_findings.json")}
+	env := append(os.Environ(), "GOMAXPROCS=1")
+	if race {
+		scratch, err := os.MkdirTemp(envOr("VERIF_SCRATCH", "/var/tmp"), "verif-replay-")
+		if err != nil {
+			die(2, "%v", err)
+		}
+		defer os.RemoveAll(scratch)
+		args = append(args, "-verif.racelog", filepath.Join(scratch, "race"))
+		env = append(env, "GORACE=halt_on_error=0 log_path="+filepath.Join(scratch, "race"))
+	}
+	cmd := exec.Command(b.bin, args...)
+	cmd.Env = env
 	cmd.Stdout = os.Stdout
 	cmd.Stderr = os.Stderr
 	if err := cmd.Run(); err != nil {
